@@ -81,9 +81,14 @@ Record dcase := DC {
   dc_swaps : list (N * N * option (Z * list Z));        (* contributions lost (None) or altered in flight, by (from, to) *)
   dc_lostp : list N; dc_loste : list N;                 (* recipients of undelivered prepare / execute messages *)
   dc_res : dobs;
-  dc_accts : list (N * option (Z * list Z * nat * list N)) }.   (* per instance: share, vector, threshold, participants *)
+  dc_accts : list (N * option (Z * list Z * nat * list N));    (* per instance: share, vector, threshold, participants *)
+  dc_stale : list N }.                                          (* instances that already hold an account of that name *)
 
 Definition fresh (i : N) : dnode := {| nd_id := i; nd_gens := []; nd_accts := [] |}.
+Definition start_node (acct : string) (stale : list N) (i : N) : dnode :=
+  if existsb (N.eqb i) stale
+  then {| nd_id := i; nd_gens := []; nd_accts := [(acct, {| ar_share := 0; ar_vvec := []; ar_thr := 0; ar_parts := [] |})] |}
+  else fresh i.
 
 Definition case_net (c : dcase) : net :=
   {| nt_swap := fun from to m =>
@@ -120,7 +125,7 @@ Definition acct_match (acct : string) (cl : cluster) (e : N * option (Z * list Z
 (* 0 = agrees; 1 = result differs; 2 = an account differs *)
 Definition dcheck (c : dcase) : nat :=
   let '(r, cl) := generate {| check_len := dc_checklen c |} (case_net c) (dc_acct c) (dc_thr c) (dc_parts c) (case_poly c)
-                    (map fresh (dc_ids c)) in
+                    (map (start_node (dc_acct c) (dc_stale c)) (dc_ids c)) in
   if negb (dres_match (dc_res c) r) then 1%nat
   else if forallb (acct_match (dc_acct c) cl) (dc_accts c) then 0%nat else 2%nat.
 
